@@ -224,6 +224,16 @@ func (c *checker) CheckFunctions(t *parser.Thrift) (warns []string, err error) {
 			if err = checkFieldList(f.Throws, fmt.Sprintf("throws of %q.%q", svc.Name, f.Name), t.Filename); err != nil {
 				return
 			}
+			if !f.Void {
+				// the generated result struct stores the return value as field 0
+				for _, a := range f.Throws {
+					if a.ID == 0 {
+						err = fmt.Errorf("[IDL grammar error] %s.%s: field ID 0 of exception %q is reserved for the return value from file %s",
+							svc.Name, f.Name, a.Name, t.Filename)
+						return
+					}
+				}
+			}
 			for _, a := range f.Arguments {
 				if a.Requiredness == parser.FieldType_Optional {
 					argOpt = t.Filename + ": optional keyword is ignored in argument lists."
